@@ -25,7 +25,7 @@ var c01DataKey = []byte{9, 0, 1} // the contended data key (1 chunk)
 type c01Action struct {
 	perm  state.Permissions
 	nops  int
-	ops   [c01MaxOps]int // 0 get, 1 insert val, 2 remove
+	ops   [c01MaxOps]int // 0 get, 1 insert val, 2 remove, 3 insert the value the parent state holds (7)
 	val   byte
 	fail  bool
 	reads *[c01MaxOps]int // per op: -2 not a read / not reached, -1 read absent, else the byte read
@@ -55,6 +55,10 @@ func (a c01Action) Execute(ctx context.Context, _ Rules, mu state.Mutable, _ int
 			}
 		case 2:
 			if err := mu.Remove(ctx, c01DataKey); err != nil {
+				return nil, err
+			}
+		case 3:
+			if err := mu.Insert(ctx, c01DataKey, []byte{7}); err != nil {
 				return nil, err
 			}
 		}
@@ -130,7 +134,7 @@ func c01run(focused bool) {
 			a.perm = state.All
 			a.nops = 1 + verifChoose("nops", maxOps)
 			for j := 0; j < a.nops; j++ {
-				a.ops[j] = verifChoose("op", 3)
+				a.ops[j] = verifChoose("op", 4)
 			}
 		}
 		if !narrow {
@@ -212,6 +216,8 @@ func c01run(focused bool) {
 				curHas, curVal = true, a.val+byte(j)
 			case 2:
 				curHas = false
+			case 3:
+				curHas, curVal = true, 7
 			}
 		}
 		r := results[i]
